@@ -27,7 +27,16 @@ func c12JWT(n int) string {
 	if t, ok := c12JWTs[n]; ok {
 		return t
 	}
-	t := sim.HonestToken(sim.Keys()[0], map[string]any{"sub": fmt.Sprintf("v%d", n), "aud": "c", "exp": time.Date(2040, 1, 1, 0, 0, 0, 0, time.UTC).Unix()})
+	claims := map[string]any{"sub": fmt.Sprintf("v%d", n), "aud": "c", "exp": time.Date(2040, 1, 1, 0, 0, 0, 0, time.UTC).Unix()}
+	if n == 3 || n == 6 {
+		// a user in a hundred groups: an ID token of ~5 KiB
+		var groups []string
+		for i := 0; i < 100; i++ {
+			groups = append(groups, fmt.Sprintf("cn=group-%04d,ou=teams,dc=example,dc=org", i))
+		}
+		claims["groups"] = groups
+	}
+	t := sim.HonestToken(sim.Keys()[0], claims)
 	c12JWTs[n] = t
 	return t
 }
@@ -38,12 +47,18 @@ func c12Tok(v int) *oidc.TokenResponse {
 	t := &oidc.TokenResponse{IDToken: c12JWT(v)}
 	if v&1 != 0 {
 		t.AccessToken = fmt.Sprintf("at%d", v)
+		if v == 5 {
+			t.AccessToken += "." + strings.Repeat("0123456789abcdef", 200) // ~3 KiB, as JWT access tokens are
+		}
 	}
 	if v&2 != 0 {
 		t.AccessTokenExpiresAt = time.Date(2031, 2, 3, 4, 5, 6+v, 7000, time.UTC)
 	}
 	if v&4 != 0 {
 		t.RefreshToken = fmt.Sprintf("rt%d", v)
+		if v == 7 {
+			t.RefreshToken += "." + strings.Repeat("fedcba9876543210", 200)
+		}
 	}
 	return t
 }
@@ -90,6 +105,8 @@ type c12World struct {
 	stores []oidc.SessionStore
 	model  map[string]*c12Entry
 	abs    time.Duration
+	// ids beyond a, b, c that a sequence used (the full scan at the end visits them too)
+	moreIDs []string
 }
 
 func newC12World(c *sim.Case, kind string, abs time.Duration) *c12World {
@@ -185,6 +202,11 @@ func (w *c12World) apply(op, id string, replica int) {
 		if e != nil {
 			e.auth = nil
 		}
+	case "Sweep":
+		// removes what has expired and nothing else: the model does not change
+		if err := st.RemoveAllExpired(ctx); err != nil {
+			c.Violation(sig("sweep-error"), "RemoveAllExpired: %v", err)
+		}
 	case "Remove":
 		if err := st.RemoveSession(ctx, id); err != nil {
 			c.Violation(sig("remove-error"), "RemoveSession(%s): %v", id, err)
@@ -194,7 +216,8 @@ func (w *c12World) apply(op, id string, replica int) {
 }
 
 func (w *c12World) scan() {
-	for _, id := range []string{"a", "b", "c"} {
+	ids := append([]string{"a", "b", "c"}, w.moreIDs...)
+	for _, id := range ids {
 		for r := range w.stores {
 			w.apply("GetTok", id, r)
 			w.apply("GetAuth", id, r)
@@ -204,9 +227,10 @@ func (w *c12World) scan() {
 
 func c12NonTrivial(c *sim.Case, seq []string) {
 	// touches >= 2 ids and has a Clear/Remove followed by a later op on the same id
-	ids := map[byte]bool{}
+	idOf := func(s string) string { return s[strings.LastIndexByte(s, '@')+1:] }
+	ids := map[string]bool{}
 	for _, s := range seq {
-		ids[s[len(s)-1]] = true
+		ids[idOf(s)] = true
 	}
 	if len(ids) < 2 {
 		return
@@ -214,7 +238,7 @@ func c12NonTrivial(c *sim.Case, seq []string) {
 	for i, s := range seq {
 		if len(s) > 6 && (s[:6] == "Remove" || s[:5] == "Clear") {
 			for _, t := range seq[i+1:] {
-				if t[len(t)-1] == s[len(s)-1] {
+				if idOf(t) == idOf(s) {
 					c.NonTrivial()
 					return
 				}
@@ -252,6 +276,18 @@ func c12Random(c *sim.Case) {
 	}
 	w := newC12World(c, kind, abs)
 	n := 1 + sim.Pick(c, "n", 60)
+	ids := []string{"a", "b", "c"}
+	if sim.Weighted(c, "many-sessions", 7, 1) == 1 {
+		// dozens of sessions with ids as long as real ones, hundreds of operations: whatever a store keeps per
+		// session (index, batch, sweep list) is filled well beyond a handful of entries
+		for i, k := 0, 4+sim.Pick(c, "nids", 60); i < k; i++ {
+			id := fmt.Sprintf("%02d-Zm9vYmFyYmF6cXV4Zm9vYmFyYmF6cXV4Zm9vYmFyYmF6cXV4", i)
+			ids = append(ids, id)
+			w.moreIDs = append(w.moreIDs, id)
+		}
+		n = 50 + sim.Pick(c, "n.many", 350)
+		c.Class("many-sessions")
+	}
 	var seq []string
 	for i := 0; i < n; i++ {
 		if abs > 0 && sim.Weighted(c, "advance", 5, 1) == 1 {
@@ -261,7 +297,10 @@ func c12Random(c *sim.Case) {
 			continue
 		}
 		op := c12Ops[sim.Pick(c, "op", len(c12Ops))]
-		id := sim.PickStr(c, "id", "a", "b", "c")
+		if sim.Weighted(c, "sweep", 11, 1) == 1 {
+			op = "Sweep"
+		}
+		id := ids[sim.Pick(c, "id", len(ids))]
 		rep := sim.Pick(c, "replica", 2)
 		seq = append(seq, op+"@"+id)
 		w.apply(op, id, rep)
@@ -586,7 +625,7 @@ func c12AgreeCore(c *sim.Case, abs, idle time.Duration, n int, step func(i int) 
 func TestC12(t *testing.T) {
 	r := sim.NewRun(t, "C12")
 	defer r.Finish()
-	r.Rule = "store operation sequences over ids {a,b,c}: SetTokens(v1 full | v2 without access/refresh token and expiry), GetTokens, SetLoginState(s1|s2), GetLoginState, ClearLoginState, Remove, clock advances (with an absolute timeout, for the creation-time clause); for Redis every op is routed to one of two store instances on one miniredis. Exhaustive: all sequences of a fixed length over a 16-letter (op,id) alphabet for both stores, compared with a plain-map model after every read and by a full scan through every replica at the end; random: sequences to length 60. Agreement tier: the same sequence (exhaustively to length 5 [7] over six operations and two gaps with an idle timeout of 10 s with and without an absolute one, and randomly (to length 16, with absolute and idle timeouts from {0,3,10,60} s and advances to fractions of a limit) on the memory store and on two Redis replicas at once; every read must find the same thing in both kinds of store outside the 1 s bands around every instant at which any reading of 'last used' could put a limit. Concurrent tier: 2-4 goroutines x 3-8 ops on 2 ids against the memory store, histories checked for linearizability with porcupine. Non-trivial = touches >= 2 ids and has a Clear/Remove followed by a later op on the same id (sequential) / has overlapping operations of different goroutines (concurrent)."
+	r.Rule = "store operation sequences over ids {a,b,c}: SetTokens(eight values: every subset of access token / expiry / refresh token present, some with tokens of 3-5 KiB), GetTokens, SetLoginState(s1|s2), GetLoginState, ClearLoginState, Remove, RemoveAllExpired (random part), clock advances (with an absolute timeout, for the creation-time clause); for Redis every op is routed to one of two store instances on one miniredis. Exhaustive: all sequences of a fixed length over a 16-letter (op,id) alphabet for both stores, compared with a plain-map model after every read and by a full scan through every replica at the end; random: sequences to length 60 (one in eight: 50-400 operations over up to 66 sessions with ids of realistic length). Agreement tier: the same sequence (exhaustively to length 5 [7] over six operations and two gaps with an idle timeout of 10 s with and without an absolute one, and randomly (to length 16, with absolute and idle timeouts from {0,3,10,60} s and advances to fractions of a limit) on the memory store and on two Redis replicas at once; every read must find the same thing in both kinds of store outside the 1 s bands around every instant at which any reading of 'last used' could put a limit. Concurrent tier: 2-4 goroutines x 3-8 ops on 2 ids against the memory store, histories checked for linearizability with porcupine. Non-trivial = touches >= 2 ids and has a Clear/Remove followed by a later op on the same id (sequential) / has overlapping operations of different goroutines (concurrent)."
 	r.Assumptions = []string{
 		"values respect caller preconditions: parseable ID token, non-empty login-state members",
 		"an error from Clear/Remove on an absent id is not a divergence (both stores leave the id absent)",
